@@ -49,6 +49,9 @@ func TestAbortIf(t *testing.T) {
 		if resp.StatusCode != http.StatusProxyAuthRequired {
 			t.Fatalf("expected %d, got %d", http.StatusProxyAuthRequired, resp.StatusCode)
 		}
+		if ch := resp.Header.Get("Proxy-Authenticate"); !strings.HasPrefix(ch, "Basic ") {
+			t.Fatalf("expected Basic challenge in Proxy-Authenticate, got %q", ch)
+		}
 	}
 
 	t.Run("http", func(t *testing.T) {
